@@ -121,6 +121,7 @@ def generate(ctx):
                 op["tok"] = [p[1] for p in picks]
                 op["extrap"] = rng.choice(["spy", "spy", "pair"])
                 op["pair"] = rng.randrange(len(PAIRS))
+                op["adjust"] = rng.random() < 0.5
                 if op["extrap"] == "pair" and PAIRS[op["pair"]][0].startswith("linear"):
                     # linear extrapolation divides by the elapsed time: keep it well conditioned
                     op["tok"] = [t if t in DELTAS_ON else rng.choice(["q1", "q2", "q3"]) for t in op["tok"]]
@@ -398,6 +399,10 @@ def _check_spy_interp(ctx, spy, model, off, per, elems, dt, scalar):
     return None
 
 
+def _halve(x):
+    return x / 2
+
+
 def _do_insert(ctx, rt, model, op, desc, elems, tdt, dtp, ctr):
     n, shape, dt, tol, off = desc["N"], tuple(desc["shape"]), desc["dt"], op["tol"], op["off"]
     mode = op["mode"]
@@ -415,6 +420,11 @@ def _do_insert(ctx, rt, model, op, desc, elems, tdt, dtp, ctr):
     else:
         pair = PAIRS[op["pair"]]
         fn, kw = getattr(inff, "extrap_" + pair[0]), pair[2]
+        if pair[0].startswith("linear") and op.get("adjust"):
+            # documented optional adjustment of the bracket the linear extrapolation keeps: the insert -> select round trip
+            # with the matching pair must still return the inserted sample
+            kw = {**kw, "adjust": _halve}
+            ctx.count("adjusted_extrapolations")
     per = [cls[0]] * numel if mode == "scalar" else cls
     before = model.clone()
     if mode == "scalar":
@@ -520,9 +530,13 @@ def _extrap_ref(name, s, el, older, newer, dt, kw):
         return s, s
     if name == "nearest":
         return (older, s) if el > dt / 2 else (s, newer)
+    # documented: X(0) = f(D(0)) (forward) / X(dt) = f(D(dt)) (backward), f = the optional adjustment, identity by default
+    f = kw.get("adjust") or (lambda v: v)
     if name == "linear_forward":
+        older = f(older)
         return older, older + (s - older) / el * dt
     if name == "linear_backward":
+        newer = f(newer)
         sl = (newer - s) / (dt - el)
         return newer - sl * dt, newer
     if name == "expdecay":
